@@ -3,7 +3,8 @@ import OZ.Model.Access
 /-
 Driver for C06 (roles, role admins, admin / owner guards, enumeration).
 
-Sequence label:  `... kind=lib|nft|own min_temp=<n> max_ttl=<n> start=<ledger> admin=<a|-> owner=<a|->`
+Sequence label:  `... kind=lib|nft|own min_temp=<n> max_ttl=<n> start=<ledger> admin=<a|-> owner=<a|-> empty=<role idx>`
+  (roles are indices; the harness maps them to Symbols: 0 minter, 1 burner, 2 r2, 3 "admin", 4 the EMPTY symbol "", n ≥ 5 r<n>)
 Op lines (accounts a/k, roles r/ar are small naturals; auth = authorizing addresses):
   ac grant a= r= k= auth=          ac revoke a= r= k= auth=        ac renounce r= k= auth=
   ac grant_na a= r= k= auth=       ac revoke_na a= r= k= auth=
@@ -32,6 +33,10 @@ def R : Nat := 5      -- roles 0..R-1 are always displayed
 structure M where
   cfg : Cfg
   s : State
+  /-- index of the role whose Symbol is the empty string (label `empty=<idx>`): the
+  `role_admin_changed` event shows "no previous admin role" as that same Symbol, so a previous
+  admin role equal to it is indistinguishable from none at the event level and printed `-` -/
+  empty : Option Nat
 
 def optNat (ws : List String) (k : String) : Option Nat := (kv? ws k).bind String.toNat?
 
@@ -39,7 +44,8 @@ def parseCfg (ws : List String) : Cfg := ⟨(kvNat? ws "min_temp").getD 1, (kvNa
 
 def initM (label : String) : M :=
   let ws := words label
-  { cfg := parseCfg ws, s := init (optNat ws "admin") (optNat ws "owner") ((kvNat? ws "start").getD 100) }
+  { cfg := parseCfg ws, s := init (optNat ws "admin") (optNat ws "owner") ((kvNat? ws "start").getD 100),
+    empty := optNat ws "empty" }
 
 def flag (ws : List String) (k : String) : Bool := kv? ws k = some "1"
 
@@ -99,10 +105,10 @@ def showState (s : State) (xr : List Nat) : String :=
   let x := if xr.isEmpty then "-" else ";".intercalate (xr.map (fun r => s!"{r}:{showRole s r}"))
   s!"admin={showOpt (getAdmin s)} owner={showOpt s.own.holder} now={s.adm.now} ra={",".intercalate ra} roles={";".intercalate roles} xr={x} ex={showList toString (getExistingRoles s)}"
 
-def showEvent : Event → String
+def showEvent (empty : Option Nat) : Event → String
   | .roleGranted r a k => s!"grant:{r}:{a}:{k}"
   | .roleRevoked r a k => s!"revoke:{r}:{a}:{k}"
-  | .roleAdminChanged r p n => s!"radm:{r}:{showOpt p}:{n}"
+  | .roleAdminChanged r p n => s!"radm:{r}:{if p = empty then "-" else showOpt p}:{n}"
 
 def showRtEvent : OZ.RoleTransfer.Event → String
   | .initiated o n lu => s!"xfer:{o}:{n}:{lu}"
@@ -117,7 +123,7 @@ def stepLine (m : M) (line : String) : M × String :=
     let xr := extraRoles ws
     match apply m.cfg m.s auth op with
     | .ok s' =>
-      let evs := (s'.events.drop m.s.events.length).map showEvent
+      let evs := (s'.events.drop m.s.events.length).map (showEvent m.empty)
         ++ (s'.adm.events.drop m.s.adm.events.length).map showRtEvent
         ++ (s'.own.events.drop m.s.own.events.length).map showRtEvent
       ({ m with s := s' }, s!"ok {showState s' xr} ev={if evs.isEmpty then "-" else ";".intercalate evs}")
